@@ -1,10 +1,210 @@
 package main
 
-import "fmt"
+// Analyser self-test: the shared engines are run on a small seeded-fault
+// fixture (type-checked from source in memory, never executed) and must give
+// the expected verdict on each numbered case - firing on the broken variant
+// and staying silent on its repaired twin. A rule engine that silently stopped
+// matching is caught here on every thorough run (and by the vacuity floors of
+// expect.json on every run).
 
-// runSelfTest runs the rules on the seeded-fault fixtures (testdata/). Filled in
-// by fixtures.go.
+import (
+	"fmt"
+	"go/ast"
+	"go/importer"
+	"go/parser"
+	"go/token"
+	"go/types"
+	"os"
+	"path/filepath"
+
+	"golang.org/x/tools/go/ssa"
+	"golang.org/x/tools/go/ssa/ssautil"
+)
+
 func runSelfTest(verif string) int {
-	fmt.Println("selftest: no fixtures registered yet")
+	src, err := os.ReadFile(filepath.Join(verif, "checker", "testdata", "fixture.go"))
+	if err != nil {
+		fmt.Println("SELFTEST-BROKEN: cannot read fixture:", err)
+		return 2
+	}
+	fset := token.NewFileSet()
+	f, err := parser.ParseFile(fset, "fixture.go", src, parser.ParseComments)
+	if err != nil {
+		fmt.Println("SELFTEST-BROKEN: parse:", err)
+		return 2
+	}
+	pkg := types.NewPackage("fixture", "fixture")
+	spkg, _, err := ssautil.BuildPackage(&types.Config{Importer: importer.ForCompiler(fset, "source", nil)}, fset, pkg, []*ast.File{f}, ssa.InstantiateGenerics)
+	if err != nil {
+		fmt.Println("SELFTEST-BROKEN: type-check/SSA:", err)
+		return 2
+	}
+	p := &Prog{RepoDir: "/selftest", Fset: fset, SSA: spkg.Prog, byRel: map[string]*ssa.Package{"fixture": spkg}, pkgRel: map[*ssa.Package]string{spkg: "fixture"}}
+	all := ssautil.AllFunctions(spkg.Prog)
+	for fn := range all {
+		if fn.Blocks != nil && (fn.Pkg == spkg || (fn.Parent() != nil && p.IsRepoFn(fn))) {
+			p.fns = append(p.fns, fn)
+		}
+	}
+	p.indexCalls()
+	fn := func(name string) *ssa.Function {
+		for _, f := range p.fns {
+			if p.FnName(f) == "fixture."+name {
+				return f
+			}
+		}
+		return nil
+	}
+	fails := 0
+	n := 0
+	expect := func(name string, got, want bool) {
+		n++
+		if got != want {
+			fails++
+			fmt.Printf("SELFTEST-FAIL %s: got %v, want %v\n", name, got, want)
+		} else {
+			fmt.Printf("selftest ok   %s\n", name)
+		}
+	}
+	need := func(name string) *ssa.Function {
+		f := fn(name)
+		if f == nil {
+			fails++
+			fmt.Printf("SELFTEST-FAIL fixture function %s not found\n", name)
+		}
+		return f
+	}
+
+	// --- E-PANIC: explicit panic and assertions ---
+	if f := need("panicBad"); f != nil {
+		expect("E-PANIC explicit panic is found", len(terminatorsIn(f)) == 1, true)
+	}
+	if f := need("assertBad"); f != nil {
+		ts := terminatorsIn(f)
+		expect("E-PANIC single-value assertion is found", len(ts) == 1 && ts[0].Kind == "assert", true)
+		if len(ts) == 1 {
+			expect("E-PANIC undominated assertion is not discharged", p.dischargeAssert(ts[0].Instr.(*ssa.TypeAssert)) == "", true)
+		}
+	}
+	if f := need("assertGood"); f != nil {
+		ts := terminatorsIn(f)
+		if len(ts) == 1 {
+			expect("E-PANIC assertion dominated by comma-ok is discharged", p.dischargeAssert(ts[0].Instr.(*ssa.TypeAssert)) != "", true)
+		} else {
+			expect("E-PANIC assertGood has one single-value assertion", false, true)
+		}
+	}
+	// --- E-GUARD: edge-cut reachability ---
+	guardCase := func(name string, want bool) {
+		f := need(name)
+		if f == nil {
+			return
+		}
+		var target ssa.Instruction
+		var call *ssa.Call
+		for _, ci := range callsIn(f) {
+			switch calleeName(ci) {
+			case "fixture.sink":
+				target = ci
+			case "fixture.produce":
+				call, _ = ci.(*ssa.Call)
+			}
+		}
+		if target == nil || call == nil {
+			expect("E-GUARD "+name+" shape", false, true)
+			return
+		}
+		path := reachableWithout(f, target, errNilEdges(f, call, 1))
+		expect("E-GUARD "+name+": sink reachable without err == nil", path != nil, want)
+	}
+	guardCase("guardBad", true)
+	guardCase("guardGood", false)
+	guardCase("guardFatal", false) // log.Fatal-like exit prunes the path
+	// --- path-sensitive search: repeated test of one condition ---
+	if f := need("twiceTested"); f != nil {
+		var a, b ssa.Instruction
+		for _, ci := range callsIn(f) {
+			switch calleeName(ci) {
+			case "fixture.first":
+				a = ci
+			case "fixture.second":
+				b = ci
+			}
+		}
+		// second() only after first() on feasible paths: the infeasible path (c true then c false) must be pruned
+		path := psSearch(f.Blocks[0], nil, func(x *ssa.BasicBlock) bool { return x == a.Block() }, func(x *ssa.BasicBlock) bool { return x == b.Block() })
+		expect("PS-SEARCH contradictory outcomes of one SSA condition are pruned", path == nil, true)
+	}
+	// --- E-CHAN classification ---
+	if f := need("chanModes"); f != nil {
+		modes := map[string]int{}
+		for _, op := range chanOpsIn(p, f) {
+			if op.Dir == chSend || op.Dir == chRecv {
+				modes[op.Mode]++
+			}
+		}
+		expect("E-CHAN unconditional/polling/select classification", modes["unconditional"] == 1 && modes["polling"] == 1 && modes["select"] == 2, true)
+	}
+	// --- E-LOCK ---
+	le := p.Locks()
+	lockCase := func(name string, want int) {
+		f := need(name)
+		if f == nil {
+			return
+		}
+		var st *ssa.Store
+		allInstrs(f, func(in ssa.Instruction) {
+			if s, ok := in.(*ssa.Store); ok {
+				if _, fld, okf := fieldOfAddr(s.Addr); okf && fld.Name() == "n" {
+					st = s
+				}
+			}
+		})
+		if st == nil {
+			expect("E-LOCK "+name+" shape", false, true)
+			return
+		}
+		expect(fmt.Sprintf("E-LOCK %s: lock mode %d at the guarded write", name, want), le.Held(st, "box.mu") == want, true)
+	}
+	lockCase("lockedWrite", heldWrite)
+	lockCase("unlockedWrite", heldNone)
+	lockCase("deferLockedWrite", heldWrite)
+	lockCase("helperUnderLock", heldWrite)   // entry lockset = intersection over call sites
+	lockCase("helperMixedCallers", heldNone) // one caller without the lock
+	lockCase("goroutineBody", heldNone)      // go statement starts with an empty lockset
+	// --- nil-after-error field summary (R-B) ---
+	sums := p.nilFieldSummaries(p.fns)
+	if os.Getenv("SFDEBUG") != "" {
+		for _, f := range p.fns {
+			fmt.Println("fn", p.FnName(f), f.Signature.Recv() != nil)
+		}
+	}
+	okSum := false
+	for _, s := range sums {
+		if s.F.Name() == "p" && s.M.Name() == "prepare" {
+			okSum = true
+		}
+	}
+	expect(fmt.Sprintf("NIL-ERR summary for (*holder).prepare / field p (%d summaries)", len(sums)), okSum, true)
+	// --- pathEventCounts (E-PAIR) ---
+	if f := need("releaseTwice"); f != nil {
+		bad, got, _ := pathEventCounts(f, func(in ssa.Instruction) bool {
+			ci, ok := in.(*ssa.Call)
+			return ok && calleeName(ci) == "fixture.release"
+		}, nil, 1)
+		expect("E-PAIR a path with two releases is found", bad != nil && got == 2, true)
+	}
+	if f := need("releaseOnce"); f != nil {
+		bad, _, np := pathEventCounts(f, func(in ssa.Instruction) bool {
+			ci, ok := in.(*ssa.Call)
+			return ok && calleeName(ci) == "fixture.release"
+		}, nil, 1)
+		expect("E-PAIR exactly one release on every path", bad == nil && np >= 2, true)
+	}
+	fmt.Printf("== selftest: %d cases, %d failed\n", n, fails)
+	if fails > 0 {
+		fmt.Println("CHECK-BROKEN: analyser self-test failed")
+		return 2
+	}
 	return 0
 }
